@@ -949,10 +949,12 @@ class Ptr(Node):
             decl.append(" volatile")
 
     def __str__(self):
+        out = self.ptr
         if self.const:
-            return self.ptr + " const"
-        else:
-            return self.ptr
+            out += " const"
+        if self.volatile:
+            out += " volatile"
+        return out
 
 
 class Declarator(Node):
@@ -1324,6 +1326,8 @@ class Declaration(Node):
         use_attrs = kwargs.get("attrs", True)
         if self.const:
             decl.append("const ")
+        if self.volatile:
+            decl.append("volatile ")
 
         if self.attrs["_destructor"]:
             decl.append("~")
@@ -1443,6 +1447,8 @@ class Declaration(Node):
         if self.const:
             const_index = len(decl)
             decl.append("const ")
+        if self.volatile:
+            decl.append("volatile ")
 
         if with_template_args and self.template_arguments:
             # Use template arguments from declaration
